@@ -888,8 +888,25 @@ func famTwins(o *Out, r R, tier string) {
 				o.emitDirect("twin-rejected", false, str(cfgSX(&c))+" vs "+str(cfgSX(&t)))
 				return
 			}
-			for j := 0; j < nreq/2; j++ {
-				q := genRequest(&c, r)
+			// every listed origin pattern as the origin it denotes (first 16), then generated requests
+			var fixed []reqT
+			for k, p := range c.Origins {
+				if k >= 16 || !strings.Contains(p, "://") {
+					continue
+				}
+				og := strings.Replace(strings.Replace(p, "://*.", "://sub.", 1), ":*", ":7777", 1)
+				fixed = append(fixed, reqT{method: "GET", hdrs: http.Header{"Origin": {og}}})
+				if strings.Contains(p, "://*.") {
+					fixed = append(fixed, reqT{method: "GET", hdrs: http.Header{"Origin": {strings.Replace(strings.Replace(p, "://*.", "://x.y.", 1), ":*", ":7777", 1)}}})
+				}
+			}
+			for j := 0; j < nreq/2+len(fixed); j++ {
+				var q reqT
+				if j < len(fixed) {
+					q = fixed[j]
+				} else {
+					q = genRequest(&c, r)
+				}
 				pre := genPre(r, false)
 				o1, o2 := serveOnce(m1, q, pre), serveOnce(m2, q, pre)
 				nreqs++
@@ -897,7 +914,7 @@ func famTwins(o *Out, r R, tier string) {
 					mismatch = str(cfgSX(&c)) + " vs " + str(cfgSX(&t)) + " on " + str(q.sx()) + ": " + str(o1.sx()) + " != " + str(o2.sx())
 				}
 				// correspondence for the twin itself
-				if j < 2 {
+				if j >= len(fixed) && j < len(fixed)+2 {
 					o.emit("serve", true, "twin-serve", KV("cfg", cfgSX(&t)), KV("debug", Bool(debug)), KV("req", q.sx()), KV("pre", hdrSX(pre)),
 						KV("impl", o2.sx()), KV("want", L(Y("none"))), oracleForCfg(&t))
 				}
